@@ -792,6 +792,32 @@ impl Checker {
                     step,
                 );
             }
+            // C05: the worker that starts an execution has enough lifetime left for the time
+            // request of the variant it runs (placement decisions are judged when they are made;
+            // a task pre-sent to a worker's backlog is only placed for good when it is started)
+            if let Some(t) = self.model.task(k)
+                && let Some(v) = t.rq.variants.get(l.rv as usize)
+                && v.min_time > 0
+                && v.n_nodes == 0
+                && let Some(wsim) = world.workers.get(&w)
+                && let Some(limit) = wsim.time_limit_ms
+            {
+                self.probes.hit("launch_with_time_request_on_limited_worker");
+                if l.at_ms + v.min_time * 1000 > wsim.start_ms + limit {
+                    fnd(
+                        out,
+                        "C05",
+                        "started-without-enough-lifetime",
+                        "",
+                        format!(
+                            "worker {w} started {k:?} (instance {inst}) which asks for {} s although the worker ends in {} ms",
+                            v.min_time,
+                            (wsim.start_ms + limit).saturating_sub(l.at_ms)
+                        ),
+                        step,
+                    );
+                }
+            }
             // C08 / C14: a worker that processed the cancel never starts the task afterwards
             if let Some(s) = self.worker_cancel_seen.get(&(w, k)) {
                 let prop = match self.model.task(k).map(|t| &t.state) {
